@@ -144,7 +144,14 @@ fn c13_defs(out: &mut dyn Write, tier: &str, rng: &mut Rng, st: &mut Stats) {
             match with_ref { Some(r) => format!("({{{}}} {} ({}))", r, rng.pick(&["&", "|", "^", "=>"]), t), None => format!("({})", t) }
         };
         let t1 = term(rng, None);
-        let main_text = match h % 11 {
+        // shapes 11-13: a definition that mentions the name a fixed point binds (x1), used inside that fixed point AND
+        // evaluated outside it first (to its left, or under a quantifier that binds x1 inside the body)
+        let fixref = h % 14 >= 11;
+        let main_text = if fixref { match h % 14 {
+            11 => format!("{{r0}} {} ({} x1 # {{r0}})", rng.pick(&["&", "|"]), rng.pick(&["lfp", "gfp"])),
+            12 => format!("lfp x1 # ((forall x1 # {{r0}}) | {{r0}})"),
+            _ => format!("({{r0}} ^ {}) | (gfp x1 # ({{r0}} & {}))", t1, t1),
+        } } else { match h % 11 {
             // a reference that reaches the result without passing through a connective that rebuilds it
             9 => "{r0}".to_string(),
             10 => format!("{{r0}} {} {{r1}}", rng.pick(&["|", "&", "^"])),
@@ -158,7 +165,7 @@ fn c13_defs(out: &mut dyn Write, tier: &str, rng: &mut Rng, st: &mut Stats) {
             3 => format!("a & (({} x1 # ({{r0}} | (x1 & {}))) & {{r0}})", rng.pick(&["lfp", "gfp"]), t1),
             4 => format!("[{{r0}}, {}, {{r1}}] >= {}", t1, 1 + rng.below(2)),
             _ => format!("if {{r1}} then {{r0}} else {}", t1),
-        };
+        } };
         let pf = match parse(&main_text) { Some(p) => p, None => continue };
         let mut defs: Vec<(String, String)> = Vec::new(); // current definitions: name -> text
         let mut foreign: Vec<String> = Vec::new(); // names currently defined by a diagram of ANOTHER environment
@@ -168,11 +175,13 @@ fn c13_defs(out: &mut dyn Write, tier: &str, rng: &mut Rng, st: &mut Stats) {
                 // (re)define r0 or r1; r0 may refer to r1, never the other way round
                 let which = if rng.chance(2, 3) { "r0" } else { "r1" };
                 let text = if which == "r0" && rng.chance(1, 3) { term(rng, Some("r1")) } else { term(rng, None) };
+                // under the fixed-point shapes r0 is monotone in x1: x1 joined to a term without it
+                let text = if fixref && which == "r0" { st.hit("defs.mentions-the-bound-name"); format!("x1 {} {}", rng.pick(&["|", "&"]), text) } else { text };
                 if let Some(d) = parse(&text) {
                     // every third definition is given as the evaluated diagram of the other formula (nodes of another
                     // environment), the others as its syntax
                     // (not under a fixed point: substituting into a referenced diagram is `unimplemented!` by design)
-                    let as_bdd = h % 11 != 3 && (rng.chance(1, 3) || (h % 11 >= 6 && h % 11 <= 8)) && !text.contains('{');
+                    let as_bdd = !fixref && h % 11 != 3 && (rng.chance(1, 3) || (h % 11 >= 6 && h % 11 <= 8)) && !text.contains('{');
                     let given = if as_bdd { match eval_guarded(&d) { Ok(b) => Some(ReferenceContents::BDD(b)), Err(_) => None } } else { None };
                     foreign.retain(|n| n != which);
                     match given { Some(g) => { pf.define(which, g); foreign.push(which.to_string()); st.hit("defs.define.bdd"); } None => pf.define(which, ReferenceContents::Syntax(d.bdd.clone())) }
